@@ -86,7 +86,16 @@ NAMEID_POOL = [
     ("alice", PERSISTENT, None),
     ("Alice", PERSISTENT, S.SP_ID),
     ("alice", PERSISTENT, S.SP2_ID),
+    # unusual but valid identifier texts are ordinary subjects, different from their unpadded look-alikes:
+    # the unchanged code handles them verbatim (no strip anywhere on the way cache key -> NameID -> cache key)
+    ("  alice  ", PERSISTENT, S.SP_ID),
+    ("alice\n", PERSISTENT, S.SP_ID),
+    ("\talice", PERSISTENT, S.SP_ID),
+    ("al  ice", PERSISTENT, S.SP_ID),
+    ("alice", PERSISTENT, S.SP_ID + " "),
 ]
+TZS = ["EET-2", "AEST-10", "PST8"]
+IMPORT_AT = S.NOW0 - 86400  # virtual instant at which the pysaml2 client/server modules are imported
 SAMLP = "urn:oasis:names:tc:SAML:2.0:protocol"
 SAML = "urn:oasis:names:tc:SAML:2.0:assertion"
 
@@ -94,7 +103,42 @@ _cache = {}
 
 
 def setup():
+    """Installs the virtual clock, imports the pysaml2 modules under test at a KNOWN virtual instant (a day
+    before the histories start: whatever a module computes at import time is a day old), and makes sure the
+    virtual clock does not depend on the process time zone."""
+    import os
+    import sys
+    import time
+
     S.install()
+    if "saml2.client" not in sys.modules:
+        with S.clock(IMPORT_AT):
+            import saml2.client  # noqa: F401
+            import saml2.server  # noqa: F401
+    import saml2.time_util
+
+    old = os.environ.get("TZ")
+    try:
+        for tz in TZS:
+            os.environ["TZ"] = tz
+            time.tzset()
+            with S.clock(S.NOW0 + 7):
+                if saml2.time_util.utc_now() != S.NOW0 + 7 or time.strftime("%H:%M:%S", time.gmtime()) != \
+                        S.fmt_time(S.NOW0 + 7)[11:19]:
+                    raise RuntimeError("harness: the virtual clock moves with TZ=%s" % tz)
+    finally:
+        _set_tz(old)
+
+
+def _set_tz(tz):
+    import os
+    import time
+
+    if tz is None:
+        os.environ.pop("TZ", None)
+    else:
+        os.environ["TZ"] = tz
+    time.tzset()
 
 
 # ------------------------------------------------------------------ fixtures
@@ -314,7 +358,10 @@ class World:
         for k in subs:
             if k < 0:
                 continue
-            srcs.append([k, sorted(self.idp_index(e) for e in sp.users.sources(self.nids[k]))])
+            try:
+                srcs.append([k, sorted(self.idp_index(e) for e in sp.users.sources(self.nids[k]))])
+            except KeyError:  # subjects() lists a NameID the cache does not know under that NameID's own key
+                srcs.append([k, [-1]])
         for k, n in enumerate(self.nids):
             if sp.is_logged_in(n):
                 logged.append(k)
@@ -337,9 +384,19 @@ class World:
             self.sp = self.mk()
         else:
             self.sp = self.clients[st.get("c", 0) % len(self.clients)]
-        with S.clock(self.now):
-            out = getattr(self, "op_" + op)(st)
-            obs = self.observe()
+        import os
+
+        tz = self.cfg.get("tz")
+        old = os.environ.get("TZ")
+        if tz:
+            _set_tz(tz)  # the process runs in another time zone; the model stays UTC
+        try:
+            with S.clock(self.now):
+                out = getattr(self, "op_" + op)(st)
+                obs = self.observe()
+        finally:
+            if tz:
+                _set_tz(old)
         self.step_no += 1
         return {"out": out, "obs": obs}
 
@@ -471,7 +528,10 @@ class World:
 
         exp = S.fmt_time(st["expire"]) if st.get("expire") is not None else None
         try:
-            res = self.sp.global_logout(self.nids[st["s"]], "urn:oasis:names:tc:SAML:2.0:logout:user", exp, sign=False)
+            if exp is None and st.get("args") == "omit":  # every optional argument really left out
+                res = self.sp.global_logout(self.nids[st["s"]])
+            else:
+                res = self.sp.global_logout(self.nids[st["s"]], "urn:oasis:names:tc:SAML:2.0:logout:user", exp, sign=False)
         except (KeyError, ValueError, AttributeError, SAMLError, SamlException) as e:
             return self._logout_error(e)
         return self._logout_result(res)
@@ -537,7 +597,10 @@ class World:
         else:
             wire = idp.apply_binding(BIND[b], xml, dest, "rs")["data"]
         try:
-            out = self.sp.handle_logout_request(wire, self.nids[st["current"]], BIND[b], sign=False, relay_state="rs")
+            if st.get("args") == "omit":
+                out = self.sp.handle_logout_request(wire, self.nids[st["current"]], BIND[b])
+            else:
+                out = self.sp.handle_logout_request(wire, self.nids[st["current"]], BIND[b], sign=False, relay_state="rs")
         except SAMLError as e:
             if type(e) is SAMLError:  # "No supported bindings found to create LogoutResponse"
                 return {"r": "error", "e": "noresponse", "soap": []}
@@ -593,6 +656,7 @@ def gen_history(rng, max_len=40, nosoap=False):
         binds.append(_idp_cfg(b, m))
     subjects = rng.sample(range(len(NAMEID_POOL)), n_subj)
     skew = rng.choice([None, None, None, 0, 60, 60, 300])
+    tz = rng.choice([None, None, None] + TZS)
     r = rng.random()
     if r < 0.6:
         stores, clients = "default", 1
@@ -652,6 +716,8 @@ def gen_history(rng, max_len=40, nosoap=False):
             future = [m for m in marks if m >= now]
             if future and rng.random() < 0.5:
                 dt = rng.choice(future) - now + rng.choice([0, 1])
+            elif rng.random() < 0.12:  # hours to days: nothing may depend on how long the process has been up
+                dt = rng.choice([3600, 7200 + 1, 86400, 3 * 86400 + 5])
             else:
                 dt = rng.choice([1, 5, 10, 30, 60, 100, 301, 900])
             if dt > 0:
@@ -670,6 +736,8 @@ def gen_history(rng, max_len=40, nosoap=False):
             if s in logged and (exp is None or exp >= now):
                 pend_est += sum(1 for d in binds if d["b"] in ("redirect", "post"))
             steps.append({"op": "logout", "s": s, "expire": exp})
+            if exp is None and rng.random() < 0.6:
+                steps[-1]["args"] = "omit"
         elif op == "resp":
             r = rng.random()
             sel = "pending" if r < 0.72 else "dup" if r < 0.86 else "unknown"
@@ -682,12 +750,16 @@ def gen_history(rng, max_len=40, nosoap=False):
             named = cur if rng.random() < 0.5 else rng.randrange(n_subj)
             steps.append({"op": "slo", "named": named, "current": cur, "b": rng.choice(["redirect", "post", "soap"]),
                           "i": rng.randrange(n_idp), "form": _form(rng)})
+            if rng.random() < 0.4:
+                steps[-1]["args"] = "omit"
         else:
             steps.append({"op": "reset", "s": rng.randrange(n_subj), "i": rng.randrange(n_idp)})
     steps = steps[:max_len]
     cfg = {"idps": binds, "subjects": subjects}
     if skew is not None:
         cfg["skew"] = skew
+    if tz is not None:
+        cfg["tz"] = tz
     if stores != "default":
         cfg["stores"], cfg["clients"] = stores, clients
         for st in steps:
@@ -756,7 +828,55 @@ def directed_cases():
                    "steps": [dict(st, c=k % 3) for k, st in enumerate(flow)]}
 
 
+def directed_cases_env():
+    """Round-4 dimensions: omitted optional arguments at several distances from import/login, padded NameIDs
+    as subjects next to their unpadded look-alikes, process time zones."""
+    N = S.NOW0
+    two = [_idp_cfg("redirect"), _idp_cfg("post")]
+
+    def login(s, i, sidx, t):
+        return {"op": "login", "s": s, "i": i, "cond": t + 900, "sess": None, "ava": [[0, [s]], [1, [i, 7]]],
+                "sidx": sidx, "kind": "ok"}
+
+    for dist in (0, 200, 301, 3600, 86400 + 400, 5 * 86400):
+        for tz in [None] + TZS:
+            t = N + dist
+            steps = ([{"op": "advance", "dt": dist}] if dist else []) + [
+                login(0, 0, 1, t), login(0, 1, 2, t), login(1, 0, 3, t),
+                {"op": "logout", "s": 0, "expire": None, "args": "omit"},
+                {"op": "identity", "s": 0, "ents": [], "check": True},
+                {"op": "resp", "sel": "pending", "n": 0, "issuer": -1},
+                {"op": "resp", "sel": "pending", "n": 0, "issuer": -1},
+                {"op": "identity", "s": 0, "ents": [], "check": True},
+                {"op": "slo", "named": 1, "current": 1, "b": "redirect", "i": 0, "args": "omit"},
+                {"op": "advance", "dt": 899}, {"op": "info", "s": 1, "i": 0, "check": True}]
+            cfg = {"idps": two, "subjects": [0, 1]}
+            if tz:
+                cfg["tz"] = tz
+            yield {"now0": N, "cfg": cfg, "steps": steps}
+    # expiry boundary in every time zone
+    for tz in TZS:
+        steps = [{"op": "login", "s": 0, "i": 0, "cond": N + 100, "sess": None, "ava": [[0, [1]]], "sidx": 1, "kind": "ok"}]
+        for dt in (99, 1, 1, 3599, 3600, 7 * 3600):
+            steps += [{"op": "advance", "dt": dt}, {"op": "info", "s": 0, "i": 0, "check": True},
+                      {"op": "identity", "s": 0, "ents": [], "check": True}, {"op": "stale", "s": 0, "srcs": []}]
+        yield {"now0": N, "cfg": {"idps": [_idp_cfg("redirect")], "subjects": [0], "tz": tz}, "steps": steps}
+    # padded subjects next to their look-alikes
+    for subjects in ([6, 0], [0, 7], [8, 9], [10, 0], [7, 6]):
+        steps = [login(0, 0, 1, N), login(0, 1, 2, N), login(1, 0, 3, N), login(1, 1, 4, N),
+                 {"op": "identity", "s": 0, "ents": [], "check": True}, {"op": "info", "s": 1, "i": 1, "check": True},
+                 {"op": "logout", "s": 0, "expire": N + 100},
+                 {"op": "resp", "sel": "pending", "n": 0, "issuer": -1}, {"op": "resp", "sel": "pending", "n": 0, "issuer": -1},
+                 {"op": "identity", "s": 0, "ents": [], "check": True}, {"op": "identity", "s": 1, "ents": [], "check": True},
+                 {"op": "slo", "named": 0, "current": 1, "b": "post", "i": 0},
+                 {"op": "slo", "named": 1, "current": 1, "b": "redirect", "i": 1},
+                 {"op": "identity", "s": 1, "ents": [], "check": True}]
+        yield {"now0": N, "cfg": {"idps": two, "subjects": subjects}, "steps": steps}
+
+
 def gen_cases(rng, tier):
+    for c in directed_cases_env():
+        yield c
     for c in directed_cases():
         yield c
     n = 4000 if tier == "quick" else 30000
